@@ -85,7 +85,10 @@ VmWarn(i) ==
   \cup If(~Has(i.shmem) /\ ~Has(i.memshared), {"shared"})
   \cup If(~Has(i.active), {"active"})
   \cup If(~Has(i.inactive) /\ ~InactOld(i), {"inactive"})
-  \cup If(AvailRaw(i) < 0, {"available"})
+  \cup If(AvailRaw(i) < 0 /\ ~Has(i.mavail), {"available"})
+\* MemAvailable shown as 0 is not a missing field: when the estimate that replaces it is
+\* negative, available is reported as 0 and the warning may or may not name it
+VmMayName(i) == If(AvailRaw(i) < 0 /\ Has(i.mavail), {"available"})
 
 \* which branches of the rules an input exercises (vacuity guard of the harness)
 VmClasses(i) ==
@@ -106,6 +109,7 @@ VmClasses(i) ==
   \cup If(~Has(i.inactive) /\ InactOld(i), {"inactive:inact_*"})
   \cup If(~Has(i.slab), {"slab:missing"})
   \cup {"warn:" \o w : w \in VmWarn(i)}
+  \cup {"warn-optional:" \o w : w \in VmMayName(i)}
   \cup If(VmWarn(i) = {}, {"warn:none"})
 
 FVm(i) == [ k |-> "vm",
@@ -113,7 +117,7 @@ FVm(i) == [ k |-> "vm",
             percent |-> <<100 * (Total(i) - Avail(i)), Total(i)>>,
             used |-> Used(i), free |-> Free(i), active |-> Active(i), inactive |-> Inactive(i),
             buffers |-> Buffers(i), cached |-> Cached(i), shared |-> Shared(i), slab |-> Slab(i),
-            warn |-> VmWarn(i), cls |-> VmClasses(i) ]
+            warn |-> VmWarn(i), mayname |-> VmMayName(i), cls |-> VmClasses(i) ]
 
 (* ========================= swap_memory() ================================ *)
 (* input: [k = "swap", stotal, sfree : kB or Absent (SwapTotal/SwapFree),   *)
@@ -138,7 +142,7 @@ FSwap(i) == [ k |-> "swap",
               percent |-> <<100 * (STotal(i) - SFree(i)), STotal(i)>>,
               sin  |-> IF Counters(i) THEN i.pin * Page ELSE 0,
               sout |-> IF Counters(i) THEN i.pout * Page ELSE 0,
-              warn |-> SwapWarn(i), cls |-> SwapClasses(i) ]
+              warn |-> SwapWarn(i), mayname |-> {}, cls |-> SwapClasses(i) ]
 
 F(i) == IF i.k = "vm" THEN FVm(i) ELSE FSwap(i)
 
@@ -163,6 +167,8 @@ PFull == [PNormal EXCEPT !.free = 0, !.cached = 0, !.afile = 0, !.ifile = 0, !.s
                          !.lows1 = <<0>>, !.lows2 = <<0, 0>>, !.mavail = 0]
 PIdle == [PNormal EXCEPT !.free = 100, !.cached = 0, !.afile = 0, !.ifile = 0, !.srecl = 0,
                          !.buffers = 0, !.lows1 = <<0>>, !.lows2 = <<0, 0>>, !.mavail = 100]
+\* MemAvailable = total exactly (in range: reported verbatim, percent 0 while free < total)
+PAvailEq == [PNormal EXCEPT !.mavail = 100]
 \* zero totals: all zero, and a zero total next to non-zero figures
 PZero  == [total |-> 0, free |-> 0, buffers |-> 0, cached |-> 0, srecl |-> 0, shmem |-> 0,
            memshared |-> 0, active |-> 0, inactive |-> 0, inact_d |-> 0, inact_c |-> 0,
@@ -237,11 +243,14 @@ SwapInputs(G) ==
     \/ \E st \in G \ {0}, u \in {1, 1024} : inp = Sw(st, Absent, SysAgree(st, Absent, u), v)
     \/ \E sf \in G, u \in {1, 1024} : inp = Sw(Absent, sf, SysAgree(Absent, sf, u), v)
 
-QuickPats == {PNormal, PCacheOver, PAvailOver, PLowFree, PZero, PZeroTotal, PFull, PIdle}
+QuickPats == {PNormal, PCacheOver, PAvailOver, PAvailEq, PLowFree, PZero, PZeroTotal, PFull, PIdle}
 
 Family(n) ==
   CASE n = "vm-subsets"      -> VmSubsets(QuickPats, {"shmem", "memshared", "none"}, {"new", "old", "none"},
                                           {"both", "none"}, {"absent", "one", "two"})
+    \* the rarer presence forms (both names of one metric, incomplete groups) on two patterns
+    [] n = "vm-subsets-rare" -> VmSubsets({PNormal, PLowFree}, {"both", "none"}, {"both", "partial"},
+                                          {"afile", "ifile"}, {"none", "two"})
     [] n = "vm-subsets-full" -> VmSubsets(QuickPats, {"shmem", "memshared", "both", "none"},
                                           {"new", "old", "both", "partial", "none"},
                                           {"both", "afile", "ifile", "none"}, {"absent", "none", "one", "two"})
@@ -283,7 +292,7 @@ UsedInRange == IsVm /\ inp.free <= inp.total =>
                  /\ \/ out.used + out.free + out.cached + out.buffers = out.total
                     \/ out.used + out.free = out.total /\ out.cached + out.buffers > out.total - out.free
 \* a metric is named by the warning exactly when it is reported as 0 for want of a source
-WarnedAreZero == IsVm => \A m \in out.warn :
+WarnedAreZero == IsVm => \A m \in out.warn \cup out.mayname :
                    CASE m = "buffers" -> out.buffers = 0 [] m = "cached" -> out.cached = 0
                      [] m = "shared" -> out.shared = 0 [] m = "active" -> out.active = 0
                      [] m = "inactive" -> out.inactive = 0 [] m = "available" -> out.available = 0
